@@ -7,7 +7,9 @@ from __future__ import annotations
 
 import ast
 import asyncio
+import collections
 import decimal
+import enum
 import math
 
 PID = "C34"
@@ -66,6 +68,129 @@ class StrIsLiteral:
 
     def __str__(self):
         return self.s
+
+
+# ---- values whose type is a SUBCLASS of a builtin literal type (or that has no
+# literal form at all): produced by custom filters / globals registered on the
+# environments, from template literals as well as from variables
+class Color(enum.IntEnum):
+    RED = 1
+    GREEN = 2
+
+
+Version = collections.namedtuple("Version", "major minor")
+Point = collections.namedtuple("Point", "x y")
+
+
+class Celsius(float):
+    def __repr__(self):
+        return f"Celsius({float(self)!r})"
+
+    __str__ = __repr__
+
+
+class PlainFloat(float):
+    pass
+
+
+class MyInt(int):
+    pass
+
+
+class MyStr(str):
+    pass
+
+
+class TagStr(str):
+    def __repr__(self):
+        return f"TagStr({str.__repr__(self)})"
+
+
+class MyTuple(tuple):
+    pass
+
+
+class MyList(list):
+    pass
+
+
+class MyDict(dict):
+    pass
+
+
+class MySet(set):
+    pass
+
+
+class Box:
+    def __init__(self, v):
+        self.v = v
+
+    def __eq__(self, other):
+        return type(other) is Box and other.v == self.v
+
+    __hash__ = None
+
+    def __repr__(self):
+        return f"Box({self.v!r})"
+
+
+def _markup(s):
+    from markupsafe import Markup
+
+    return Markup(s)
+
+
+_SEQ_IN = [("[1, 2]", [1, 2]), ("(1,)", (1,)), ("[]", [])]
+_STR_IN = [("'abc'", "abc"), ("'1'", "1"), ("'[1]'", "[1]"), ("' x'", " x")]
+# (name, callable registered as filter c34_<name> and global c34_<name>,
+#  inputs as (template literal, the same value in Python))
+PRODUCERS = [
+    ("color", lambda s: Color[s.upper()], [("'red'", "red"), ("'green'", "green")]),
+    ("colorn", Color, [("1", 1), ("2", 2)]),
+    ("version", lambda s: Version(*map(int, s.split("."))), [("'1.2'", "1.2"), ("'10.0'", "10.0")]),
+    ("point", lambda q: Point(*q), [("[1, 2]", [1, 2]), ("(3, 'a')", (3, "a"))]),
+    ("celsius", Celsius, [("36.6", 36.6), ("0", 0), ("-1.5", -1.5)]),
+    ("pfloat", PlainFloat, [("1.5", 1.5), ("2", 2)]),
+    ("myint", MyInt, [("5", 5), ("-3", -3), ("true", True)]),
+    ("mystr", MyStr, _STR_IN),
+    ("tagstr", TagStr, _STR_IN),
+    ("markup", _markup, [("'<b>'", "<b>"), ("'1'", "1"), ("'a'", "a")]),
+    ("mytuple", MyTuple, _SEQ_IN),
+    ("mylist", MyList, _SEQ_IN + [("'ab'", "ab")]),
+    ("mydict", MyDict, [("{'a': 1}", {"a": 1}), ("{}", {})]),
+    ("odict", collections.OrderedDict, [("{'a': 1, 'b': [2]}", {"a": 1, "b": [2]})]),
+    ("counter", collections.Counter, [("[1, 1, 2]", [1, 1, 2]), ("'aab'", "aab")]),
+    ("myset", MySet, [("[1, 2]", [1, 2]), ("[]", [])]),
+    ("box", Box, [("1", 1), ("[1]", [1]), ("'s'", "s")]),
+    ("bytes", lambda s: s.encode(), [("'ab'", "ab")]),
+    ("decimal", decimal.Decimal, [("'1.50'", "1.50")]),
+    ("ident", lambda v: v, [("[1, 2]", [1, 2]), ("{'a': (1, 2.5)}", {"a": (1, 2.5)}), ("3", 3),
+                            ("none", None), ("1.0", 1.0), ("(1, 'x')", (1, "x"))]),
+    ("cx", lambda v: complex(v, 2), [("1", 1)]),
+    # builtin types without a literal form
+    ("fset", frozenset, [("[1, 2]", [1, 2]), ("[]", [])]),
+    ("torange", range, [("3", 3)]),
+    ("ellipsis", lambda v: ..., [("1", 1)]),
+    ("notimpl", lambda v: NotImplemented, [("1", 1)]),
+    ("cxinf", lambda v: complex(v, math.inf), [("1", 1)]),
+]
+_PROD = {p[0]: p for p in PRODUCERS}
+# (name, expression around E, the same computation in Python, applicable(value))
+WRAPPERS = [
+    ("plain", "E", lambda x: x, None),
+    ("plain", "E", lambda x: x, None),
+    ("plain", "E", lambda x: x, None),
+    ("in-list", "[E, 1]", lambda x: [x, 1], None),
+    ("in-tuple", "(E, 'a')", lambda x: (x, "a"), None),
+    ("in-dict", "{'k': E}", lambda x: {"k": x}, None),
+    ("nested", "[[E], 2]", lambda x: [[x], 2], None),
+    ("cond", "E if true else 0", lambda x: x, None),
+    ("cond-test", "E if 2 is c34even else 0", lambda x: x, None),
+    ("default", "(E)|default(0)", lambda x: x, None),
+    ("item0", "(E)[0]", lambda x: x[0], lambda x: isinstance(x, (tuple, list)) and len(x) > 0),
+    ("attr", "(E).real", lambda x: x.real, lambda x: isinstance(x, (int, float)) and x == x),
+]
 
 
 def make_value(recipe):
@@ -343,27 +468,40 @@ def same(a, b):
 _ENVS = {}
 
 
-def get_env(mode):
+def make_env(key, loader=None):
     from jinja2.nativetypes import NativeEnvironment
     from jinja2.sandbox import SandboxedEnvironment
 
+    if key == "sync":
+        env = NativeEnvironment(keep_trailing_newline=True, loader=loader)
+    elif key == "async":
+        env = NativeEnvironment(keep_trailing_newline=True, enable_async=True, loader=loader)
+    else:
+        class SandboxedNativeEnvironment(SandboxedEnvironment, NativeEnvironment):
+            pass
+
+        env = SandboxedNativeEnvironment(keep_trailing_newline=True, loader=loader)
+    for name, fn, _inputs in PRODUCERS:
+        env.filters["c34_" + name] = fn
+        env.globals["c34_" + name] = fn
+    env.tests["c34even"] = lambda v: v % 2 == 0
+    return env
+
+
+def get_env(mode):
     key = mode.split(".")[0]
     if key not in _ENVS:
-        if key == "sync":
-            _ENVS[key] = NativeEnvironment(keep_trailing_newline=True)
-        elif key == "async":
-            _ENVS[key] = NativeEnvironment(keep_trailing_newline=True, enable_async=True)
-        else:
-            class SandboxedNativeEnvironment(SandboxedEnvironment, NativeEnvironment):
-                pass
-
-            _ENVS[key] = SandboxedNativeEnvironment(keep_trailing_newline=True)
+        _ENVS[key] = make_env(key)
     return _ENVS[key]
 
 
-def do_render(mode, src, values):
-    env = get_env(mode)
-    t = env.from_string(src)
+def do_render(mode, src, values, templates=None):
+    if templates is not None:
+        from jinja2 import DictLoader
+
+        t = make_env(mode.split(".")[0], DictLoader(dict(templates))).get_template(src)
+    else:
+        t = get_env(mode).from_string(src)
     if mode.endswith("render_async"):
         return asyncio.run(t.render_async(**values))
     return t.render(**values)
@@ -414,29 +552,36 @@ def check_case(ctx, mode, case):
                           f"{src!r}: single non-string node {pieces[0][1]!r} came back as "
                           f"{type(got).__name__} {got!r}", rec)
     else:
-        text = "".join(str(p[1]) for p in pieces)
-        kind, v, alt = literal_or_text(text)
-        exp_kind = kind if kind != "literal" else "literal:" + type(v).__name__
-        if kind == "either":
-            ctx.count("leading_blank_either")
-            if not (same(got, v) or same(got, alt)):
-                ctx.violation(f"{mode}:leading-blank-neither",
-                              f"{src!r}: text {text!r} -> got {got!r}", rec)
-        elif kind == "literal":
-            ctx.count("literal_results")
-            if not same(got, v):
-                ctx.violation(f"{mode}:literal-mismatch:{type(v).__name__}",
-                              f"{src!r}: text {text!r} is the literal {v!r} but got "
-                              f"{type(got).__name__} {got!r}", rec)
-        else:
-            ctx.count("text_results")
-            # the text itself: any str (Markup is a str) equal to it
-            if not (isinstance(got, str) and got == v):
-                ctx.violation(f"{mode}:text-mismatch:{_textclass(text)}",
-                              f"{src!r}: text {text!r} is not a literal but got "
-                              f"{type(got).__name__} {got!r}", rec)
+        exp_kind = judge_text(ctx, mode, src, "".join(str(p[1]) for p in pieces), got, rec)
     if nvar:
         ctx.dist((mode, [s[0] for s in segs], kinds_of(pieces), exp_kind))
+
+
+def judge_text(ctx, mode, src, text, got, rec, keypfx=None):
+    """The 'any other template' rule: literal value of the text if it parses, else the text."""
+    keypfx = keypfx or mode
+    kind, v, alt = literal_or_text(text)
+    exp_kind = kind if kind != "literal" else "literal:" + type(v).__name__
+    if kind == "either":
+        ctx.count("leading_blank_either")
+        # v is the text (any str equal to it), alt its literal value if it has one
+        if not ((isinstance(got, str) and got == v) or same(got, alt)):
+            ctx.violation(f"{keypfx}:leading-blank-neither",
+                          f"{mode}: {src!r}: text {text!r} -> got {got!r}", rec)
+    elif kind == "literal":
+        ctx.count("literal_results")
+        if not same(got, v):
+            ctx.violation(f"{keypfx}:literal-mismatch:{type(v).__name__}",
+                          f"{mode}: {src!r}: text {text!r} is the literal {v!r} but got "
+                          f"{type(got).__name__} {got!r}", rec)
+    else:
+        ctx.count("text_results")
+        # the text itself: any str (Markup is a str) equal to it
+        if not (isinstance(got, str) and got == v):
+            ctx.violation(f"{keypfx}:text-mismatch:{_textclass(text)}",
+                          f"{mode}: {src!r}: text {text!r} is not a literal but got "
+                          f"{type(got).__name__} {got!r}", rec)
+    return exp_kind
 
 
 def _textclass(text):
@@ -451,6 +596,279 @@ def _deep(x):
     if isinstance(x, list):
         return [_deep(y) for y in x]
     return x
+
+
+# ---------------------------------------------------------------- producers
+def gen_producer_case(r):
+    name, _fn, inputs = r.choice(PRODUCERS)
+    multi = r.random() < 0.2
+    return {"prod": name, "inp": r.randrange(len(inputs)), "literal": r.random() < 0.6,
+            "via": r.choice(["filter", "filter", "global"]), "wrap": r.randrange(len(WRAPPERS)),
+            "pre": r.choice(["x", "[", "1", " "]) if multi and r.random() < 0.6 else "",
+            "post": r.choice(["]", " ", "0", "y"]) if multi and r.random() < 0.6 else ""}
+
+
+def check_producer(ctx, mode, case):
+    """A single expression built from a custom filter / global (c34_<name>) applied to a
+    template literal or to a variable: the template's only node is the computed object."""
+    name, fn, inputs = _PROD[case["prod"]]
+    lit, pyval = inputs[case["inp"]]
+    wname, wsrc, wfn, wok = WRAPPERS[case["wrap"]]
+    exp = fn(pyval)
+    if wok is not None and not wok(exp):
+        wname, wsrc, wfn = "plain", "E", (lambda x: x)
+    exp = wfn(exp)
+    arg = "(" + lit + ")" if case["literal"] else "v"
+    e = f"{arg}|c34_{name}" if case["via"] == "filter" else f"c34_{name}({arg})"
+    src = case["pre"] + "{{ " + wsrc.replace("E", e) + " }}" + case["post"]
+    values = {} if case["literal"] else {"v": pyval}
+    inkind = "literal-input" if case["literal"] else "variable-input"
+    rec = {"kind": "producer", "mode": mode, "case": case, "src": src}
+    ctx.ev()
+    ctx.count("mode:" + mode)
+    ctx.count("producer_checks")
+    ctx.count("producer_" + inkind.replace("-", "_"))
+    try:
+        got = do_render(mode, src, values)
+    except BaseException as ex:  # noqa: BLE001
+        ctx.violation(f"{mode}:raises:{type(ex).__name__}:computed:{inkind}:{name}",
+                      f"{mode} of {src!r} with {values} raised {type(ex).__name__}: "
+                      f"{str(ex)[:200]}", rec)
+        return
+    single = not case["pre"] and not case["post"]
+    if single and not isinstance(exp, str):
+        ctx.count("producer_single_nonstring")
+        if type(exp) not in (int, float, bool, list, tuple, dict, set, type(None), complex):
+            ctx.count("producer_single_subclass_or_object")
+        exp_kind = "value"
+        if not same(got, exp):
+            if isinstance(got, str):
+                how = "became-text"
+            elif type(got) is not type(exp):
+                how = "came-back-as-" + type(got).__name__
+            else:
+                how = "value-differs"
+            ctx.violation(f"computed-single-node:{inkind}:{name}:{how}",
+                          f"{mode}: {src!r} with {values}: the only node is the "
+                          f"{type(exp).__name__} {exp!r} but the template returned "
+                          f"{type(got).__name__} {got!r}", rec)
+    else:
+        exp_kind = judge_text(ctx, mode, src, case["pre"] + str(exp) + case["post"], got, rec,
+                              keypfx=f"{mode}:computed:{inkind}")
+    ctx.dist((mode, "producer", name, inkind, case["via"], wname, single, exp_kind))
+
+
+def check_builtin_producers(ctx, mode):
+    """Builtin filters documented to return namedtuples (groupby: 'namedtuple of
+    (grouper, list)'), Markup, ...: value = what the filter returns for that input
+    (Environment.call_filter of the sync environment)."""
+    rows = [("groupby", [{"k": 1, "n": "a"}, {"k": 2, "n": "b"}, {"k": 1, "n": "c"}],
+             "[{'k': 1, 'n': 'a'}, {'k': 2, 'n': 'b'}, {'k': 1, 'n': 'c'}]", ["k"], "'k'"),
+            ("groupby", [{"k": 1}], "[{'k': 1}]", ["k"], "'k'"),
+            ("dictsort", {"b": 1, "a": 2}, "{'b': 1, 'a': 2}", [], ""),
+            ("batch", [1, 2, 3], "[1, 2, 3]", [2], "2"),
+            ("items", {"a": 1}, "{'a': 1}", [], "")]
+    for fname, pyval, lit, args, argsrc in rows:
+        for literal in (True, False):
+            for wsrc, wfn in (("E", lambda x: x), ("(E)|list", list), ("[(E)|list, 1]", lambda x: [list(x), 1])):
+                exp = wfn(get_env("sync.render").call_filter(fname, pyval, list(args)))
+                e = (lit if literal else "v") + "|" + fname + (f"({argsrc})" if argsrc else "")
+                src = "{{ " + wsrc.replace("E", e) + " }}"
+                inkind = "literal-input" if literal else "variable-input"
+                rec = {"kind": "builtin-producers", "mode": mode, "src": src}
+                ctx.ev()
+                ctx.count("mode:" + mode)
+                ctx.count("builtin_producer_checks")
+                try:
+                    got = do_render(mode, src, {} if literal else {"v": pyval})
+                    if not isinstance(exp, (list, tuple)):
+                        # lazily evaluated results: compare the items
+                        exp, got = list(exp), list(got)
+                except BaseException as ex:  # noqa: BLE001
+                    ctx.violation(f"{mode}:raises:{type(ex).__name__}:computed:{inkind}:{fname}",
+                                  f"{mode} of {src!r} raised {type(ex).__name__}: {str(ex)[:200]}", rec)
+                    continue
+                if not same(got, exp):
+                    ctx.violation(f"computed-single-node:{inkind}:{fname}:differs-from-filter-result",
+                                  f"{mode}: {src!r}: the filter returns {_typed(exp)} but the "
+                                  f"template returned {_typed(got)}", rec)
+                ctx.dist((mode, "builtin-producer", fname, inkind, wsrc))
+
+
+def _typed(v):
+    if isinstance(v, (list, tuple)):
+        return f"{type(v).__name__}[" + ", ".join(_typed(x) for x in v) + "]"
+    return f"{type(v).__name__}:{v!r}"
+
+
+# ------------------------------------------------------------------- blocks
+BLOCK_SHAPES = ["block", "extends", "override", "super", "super", "super2", "super-set", "self-set",
+                "self-print", "self-child", "self-child-override"]
+
+
+def native_outcomes(vals):
+    """The documented rule on a list of output values -> acceptable results."""
+    if len(vals) == 1 and not isinstance(vals[0], str):
+        return [vals[0]]
+    kind, v, alt = literal_or_text("".join(str(x) for x in vals))
+    return [v, alt] if kind == "either" else [v]
+
+
+def gen_block_case(r):
+    data = {}
+    nv = [0]
+
+    def newvar(recipe):
+        nv[0] += 1
+        n = f"v{nv[0]}"
+        data[n] = recipe
+        return n
+
+    def body():
+        k = r.random()
+        if k < 0.45:
+            return [["var", newvar(gen_value(r)), ""]]
+        out = []
+        for _ in range(r.choice([1, 2, 2, 3])):
+            if r.random() < 0.6:
+                out.append(["var", newvar(gen_value(r)), ""])
+            else:
+                out.append(["data", r.choice(DATA)])
+        return out
+
+    def edge():
+        k = r.random()
+        if k < 0.6:
+            return []
+        return [r.choice([["comment"], ["set", newvar(["int", 1])], ["data", r.choice(DATA)]])]
+
+    def side():
+        return r.choice(["", "", "", "[", "]", "x", " ", "1", "'"])
+
+    return {"shape": r.choice(BLOCK_SHAPES), "b1": body(), "b2": body(), "pre": edge(),
+            "post": edge(), "L": side(), "R": side(), "data": data}
+
+
+def build_block_case(case, values):
+    """-> (templates, acceptable results as a list or None when there is no output,
+    block output values that went through super()/self.x())"""
+    def real(segs):
+        src, flat = realize(segs, values)
+        return src, [p[1] for p in expected_from_flat(flat)]
+
+    sh = case["shape"]
+    b1s, b1 = real(case["b1"])
+    b2s, b2 = real(case["b2"])
+    pres, pre = real(case["pre"])
+    posts, post = real(case["post"])
+    L, R = case["L"], case["R"]
+    # a data '{' must not meet the '{' of the following tag
+    Ls = L + " " if L.endswith("{") else L
+    lr = lambda mid: ([Ls] if Ls else []) + [mid] + ([R] if R else [])  # noqa: E731
+    blk = lambda n, bs: "{% block " + n + " %}" + bs + "{% endblock %}"  # noqa: E731
+    base = pres + blk("v", b1s) + posts
+    T = {}
+    through = None
+    if sh == "block":
+        T["main"] = base
+        tops = [pre + b1 + post]
+    elif sh == "extends":
+        T["base"] = base
+        T["main"] = "{% extends 'base' %}"
+        tops = [pre + b1 + post]
+    elif sh == "override":
+        T["base"] = base
+        T["main"] = "{% extends 'base' %}" + blk("v", b2s)
+        tops = [pre + b2 + post]
+    elif sh in ("super", "super-set"):
+        T["base"] = base
+        inner = "{{ super() }}" if sh == "super" else "{% set s = super() %}{{ s }}"
+        T["main"] = "{% extends 'base' %}" + blk("v", Ls + inner + R)
+        through = b1
+        tops = [pre + lr(S) + post for S in native_outcomes(b1)] if b1 else None
+    elif sh == "super2":
+        T["base"] = base
+        T["mid"] = "{% extends 'base' %}" + blk("v", "{{ super() }}")
+        T["main"] = "{% extends 'mid' %}" + blk("v", Ls + "{{ super() }}" + R)
+        through = b1
+        tops = [pre + lr(S2) + post for S in native_outcomes(b1) for S2 in native_outcomes([S])] \
+            if b1 else None
+    elif sh == "self-set":
+        T["main"] = base + "{% set again = self.v() %}"
+        through = b1
+        tops = [pre + b1 + post]
+    elif sh == "self-print":
+        T["main"] = base + Ls + "{{ self.v() }}" + R
+        through = b1
+        tops = [pre + b1 + post + lr(S) for S in native_outcomes(b1)] if b1 else None
+    elif sh in ("self-child", "self-child-override"):
+        T["base"] = pres + "{% block v %}{% endblock %}" + blk("w", b1s) + posts
+        T["main"] = "{% extends 'base' %}" + blk("v", Ls + "{{ self.w() }}" + R)
+        w = b1
+        if sh == "self-child-override":
+            T["main"] += blk("w", b2s)
+            w = b2
+        through = w
+        tops = [pre + lr(S) + w + post for S in native_outcomes(w)] if w else None
+    else:
+        raise AssertionError(sh)
+    if tops is None or not all(tops):
+        return T, None, through
+    return T, tops, through
+
+
+def accept(got, o):
+    if isinstance(o, str):
+        return isinstance(got, str) and got == o
+    return got is o or same(got, o)
+
+
+def check_block_case(ctx, mode, case):
+    values = {k: make_value(v) for k, v in case["data"].items()}
+    T, tops, through = build_block_case(case, values)
+    sh = case["shape"]
+    ctx.ev()
+    ctx.count("mode:" + mode)
+    rec = {"kind": "blocks", "mode": mode, "case": case, "templates": T}
+    if tops is None:
+        ctx.count("empty_output_not_checked")
+        return
+    ctx.count("block_checks")
+    nonstr = through is not None and any(not isinstance(x, str) for x in through)
+    if through is not None:
+        ctx.count("block_super_checks" if sh.startswith("super") else "block_self_checks")
+        if nonstr:
+            ctx.count("block_reference_nonstring_output")
+    tag = "super" if sh.startswith("super") else "self" if sh.startswith("self") else "plain"
+    try:
+        got = do_render(mode, "main", values, templates=T)
+    except BaseException as e:  # noqa: BLE001
+        ctx.violation(f"{mode}:block-{tag}:raises:{type(e).__name__}:"
+                      + ("nonstring-block-output" if nonstr else "text-block-output"),
+                      f"{mode} of templates {T} with {case['data']} raised {type(e).__name__}: "
+                      f"{str(e)[:200]}", rec)
+        return
+    outs = []
+    for top in tops:
+        outs += native_outcomes(top)
+    # one non-string node that is one of the objects handed to render (not a value the
+    # rule itself computed from a block's text)
+    single = len(tops) == 1 and len(tops[0]) == 1 and not isinstance(tops[0][0], str) and \
+        any(tops[0][0] is x for x in values.values())
+    if single:
+        ctx.count("identity_checks")
+        ctx.count("block_identity_checks")
+        if got is not tops[0][0]:
+            ctx.violation(f"{mode}:block-{tag}:single-node-not-identity:{type(tops[0][0]).__name__}",
+                          f"{T}: single non-string node {tops[0][0]!r} came back as "
+                          f"{type(got).__name__} {got!r}", rec)
+    elif not any(accept(got, o) for o in outs):
+        ctx.violation(f"{mode}:block-{tag}:mismatch:" + ("str" if isinstance(outs[0], str) else "literal"),
+                      f"{T} with {case['data']}: documented result {outs[0]!r}"
+                      f"{' (or ' + repr(outs[1:]) + ')' if len(outs) > 1 else ''} but got "
+                      f"{type(got).__name__} {got!r}", rec)
+    ctx.dist((mode, "blocks", sh, [type(x).__name__ for x in (through or [])][:3],
+              "identity" if single else type(outs[0]).__name__, len(tops[0])))
 
 
 # single-node constant expressions (value known without a model)
@@ -528,6 +946,28 @@ def run(ctx):
             idx += 1
             if ctx.mine(idx):
                 check_const(ctx, mode, i)
+    for mode in MODES:
+        idx += 1
+        if ctx.mine(idx):
+            check_builtin_producers(ctx, mode)
+    rng = ctx.rng("producers")
+    for i in range(110 if quick else 4000):
+        case = gen_producer_case(rng)
+        for mode in MODES:
+            check_producer(ctx, mode, case)
+        if ctx.out_of_time():
+            break
+    rng = ctx.rng("blocks")
+    for i in range(90 if quick else 4000):
+        case = gen_block_case(rng)
+        for mode in MODES:
+            check_block_case(ctx, mode, case)
+        if i < 2:
+            ctx.sample({"templates": build_block_case(case, {k: make_value(v) for k, v in
+                                                             case["data"].items()})[0],
+                        "data": case["data"]})
+        if not quick and ctx.elapsed() > ctx.budget_s * 0.5:
+            break
     rng = ctx.rng("cases")
     n_max = 700 if quick else 30000
     i = 0
@@ -546,7 +986,16 @@ def run(ctx):
 
 
 def replay(ctx, case):
+    import warnings
+
+    warnings.simplefilter("ignore")
     if case["kind"] == "const":
         check_const(ctx, case["mode"], case["index"])
+    elif case["kind"] == "producer":
+        check_producer(ctx, case["mode"], case["case"])
+    elif case["kind"] == "builtin-producers":
+        check_builtin_producers(ctx, case["mode"])
+    elif case["kind"] == "blocks":
+        check_block_case(ctx, case["mode"], case["case"])
     else:
         check_case(ctx, case["mode"], case["case"])
